@@ -1631,3 +1631,636 @@ Proof.
   unfold first_cps. rewrite Vq_to_cp.
   rewrite (lambda_perm_invariant D (sort_bars D) (j + k) t (Permutation_sym (sort_bars_perm D))). reflexivity.
 Qed.
+(* ================================================================ the characteristic-point sweep: the breakpoints are the upper envelope *)
+Lemma line_val_on_line : forall a b p q t, snd p == a * fst p + b -> snd q == a * fst q + b -> fst p < fst q ->
+  line_val p q t == a * t + b.
+Proof. intros a b p q t Hp Hq Hlt. unfold line_val. rewrite Hp, Hq. field. lra. Qed.
+Lemma Tq_expand : forall t c, Tq t c == qmax 0 (qmin (t - Bq c) (Dq c - t)).
+Proof. intros; rewrite Tq_tent; reflexivity. Qed.
+Lemma cp_fst : forall c, fst c == (Bq c + Dq c) / 2.
+Proof. intros c. unfold Bq, Dq. rewrite ml_eq, bpd_eq. field. Qed.
+Lemma cp_snd : forall c, snd c == (Dq c - Bq c) / 2.
+Proof. intros c. unfold Bq, Dq. rewrite ml_eq, bpd_eq. field. Qed.
+Lemma cross_point_fst : forall L c, fst (cross_point L c) == (Bq c + Dq L) / 2.
+Proof. intros; unfold cross_point; simpl. rewrite rdiv_eq. reflexivity. Qed.
+Lemma cross_point_snd : forall L c, snd (cross_point L c) == (Dq L - Bq c) / 2.
+Proof. intros; unfold cross_point; simpl. rewrite rdiv_eq. reflexivity. Qed.
+
+Ltac qc := unfold qmax, qmin; qcases; try lra.
+
+(* crossing: the two new segments L -> P -> c carry max(tent L, tent c) *)
+Lemma geo_cross : forall L c t, Bq L <= Dq L -> Bq c <= Dq c -> Bq L <= Bq c -> Dq L < Dq c -> Bq c < Dq L ->
+  fst L < t -> t <= fst c -> interp_from L [cross_point L c; c] t == qmax (Tq t L) (Tq t c).
+Proof.
+  intros L c t VL Vc HB HD HX Ht1 Ht2.
+  pose proof (cp_fst L) as FL. pose proof (cp_snd L) as SL. pose proof (cp_fst c) as Fc. pose proof (cp_snd c) as Sc.
+  pose proof (cross_point_fst L c) as FP. pose proof (cross_point_snd L c) as SP.
+  rewrite !Tq_expand. cbn [interp_from].
+  set (P := cross_point L c) in *.
+  assert (FL' : fst L * 2 == Bq L + Dq L) by (rewrite FL; field).
+  assert (Fc' : fst c * 2 == Bq c + Dq c) by (rewrite Fc; field).
+  assert (FP' : fst P * 2 == Bq c + Dq L) by (rewrite FP; field).
+  assert (SL' : snd L * 2 == Dq L - Bq L) by (rewrite SL; field).
+  assert (Sc' : snd c * 2 == Dq c - Bq c) by (rewrite Sc; field).
+  assert (SP' : snd P * 2 == Dq L - Bq c) by (rewrite SP; field).
+  destruct (Qle_bool t (fst P)) eqn:E1.
+  - apply Qle_bool_iff in E1.
+    rewrite (line_val_on_line (-1) (Dq L) L P t) by lra. qc.
+  - apply Qle_bool_false in E1. apply Qle_bool_iff in Ht2. rewrite Ht2. apply Qle_bool_iff in Ht2.
+    rewrite (line_val_on_line 1 (- Bq c) P c t) by lra. qc.
+Qed.
+(* disjoint or touching: L -> (D_L,0) -> (B_c,0) -> c *)
+Lemma geo_disjoint : forall L c t, Bq L <= Dq L -> Bq c <= Dq c -> Dq L <= Bq c ->
+  fst L < t -> t <= fst c -> interp_from L [(Dq L, 0); (Bq c, 0); c] t == qmax (Tq t L) (Tq t c).
+Proof.
+  intros L c t VL Vc HX Ht1 Ht2.
+  pose proof (cp_fst L) as FL. pose proof (cp_snd L) as SL. pose proof (cp_fst c) as Fc. pose proof (cp_snd c) as Sc.
+  assert (FL' : fst L * 2 == Bq L + Dq L) by (rewrite FL; field).
+  assert (Fc' : fst c * 2 == Bq c + Dq c) by (rewrite Fc; field).
+  assert (SL' : snd L * 2 == Dq L - Bq L) by (rewrite SL; field).
+  assert (Sc' : snd c * 2 == Dq c - Bq c) by (rewrite Sc; field).
+  rewrite !Tq_expand. cbn [interp_from]. simpl fst.
+  destruct (Qle_bool t (Dq L)) eqn:E1.
+  - apply Qle_bool_iff in E1.
+    rewrite (line_val_on_line (-1) (Dq L) L (Dq L, 0) t) by (simpl; lra). qc.
+  - apply Qle_bool_false in E1. destruct (Qle_bool t (Bq c)) eqn:E2.
+    + apply Qle_bool_iff in E2.
+      rewrite (line_val_on_line 0 0 (Dq L, 0) (Bq c, 0) t) by (simpl; lra). qc.
+    + apply Qle_bool_false in E2. apply Qle_bool_iff in Ht2. rewrite Ht2. apply Qle_bool_iff in Ht2.
+      rewrite (line_val_on_line 1 (- Bq c) (Bq c, 0) c t) by (simpl; lra). qc.
+Qed.
+(* the end of a level: L -> (D_L,0) -> (INF,0) *)
+Lemma geo_final : forall L t, Bq L <= Dq L -> Dq L < INF -> fst L < t ->
+  interp_from L [(Dq L, 0); (INF, 0)] t == Tq t L.
+Proof.
+  intros L t VL HI Ht1.
+  pose proof (cp_fst L) as FL. pose proof (cp_snd L) as SL.
+  assert (FL' : fst L * 2 == Bq L + Dq L) by (rewrite FL; field).
+  assert (SL' : snd L * 2 == Dq L - Bq L) by (rewrite SL; field).
+  rewrite Tq_expand. cbn [interp_from]. simpl fst. simpl snd.
+  destruct (Qle_bool t (Dq L)) eqn:E1.
+  - apply Qle_bool_iff in E1.
+    rewrite (line_val_on_line (-1) (Dq L) L (Dq L, 0) t) by (simpl; lra). qc.
+  - apply Qle_bool_false in E1. destruct (Qle_bool t INF) eqn:E2.
+    + apply Qle_bool_iff in E2. rewrite (line_val_on_line 0 0 (Dq L, 0) (INF, 0) t) by (simpl; lra). qc.
+    + qc.
+Qed.
+(* the start of a level: (-INF,0) -> (B_c,0) -> c *)
+Lemma geo_init : forall c t, Bq c <= Dq c -> - INF < Bq c -> - INF < t -> t <= fst c ->
+  interp_from (- INF, 0) [(Bq c, 0); c] t == Tq t c.
+Proof.
+  intros c t Vc HI Ht1 Ht2.
+  pose proof (cp_fst c) as Fc. pose proof (cp_snd c) as Sc.
+  assert (Fc' : fst c * 2 == Bq c + Dq c) by (rewrite Fc; field).
+  assert (Sc' : snd c * 2 == Dq c - Bq c) by (rewrite Sc; field).
+  rewrite Tq_expand. cbn [interp_from]. simpl fst.
+  destruct (Qle_bool t (Bq c)) eqn:E1.
+  - apply Qle_bool_iff in E1. rewrite (line_val_on_line 0 0 (- INF, 0) (Bq c, 0) t) by (simpl; lra). qc.
+  - apply Qle_bool_false in E1. apply Qle_bool_iff in Ht2. rewrite Ht2. apply Qle_bool_iff in Ht2.
+    rewrite (line_val_on_line 1 (- Bq c) (Bq c, 0) c t) by (simpl; lra). qc.
+Qed.
+
+(* ---------------- the maximum of the tents of a list *)
+Definition mx (t : Q) (S : list pt) : Q := fold_right (fun c m => qmax (Tq t c) m) 0 S.
+Lemma mx_nonneg : forall t S, 0 <= mx t S.
+Proof. induction S; simpl; [apply Qle_refl | eapply Qle_trans; [apply IHS | apply qmax_le_r]]. Qed.
+Lemma mx_ge : forall t S s, In s S -> Tq t s <= mx t S.
+Proof.
+  induction S as [|a S IH]; intros s H; [inversion H|]. destruct H as [H|H]; simpl.
+  - subst; apply qmax_le_l. - eapply Qle_trans; [apply IH; auto | apply qmax_le_r].
+Qed.
+Lemma mx_lub : forall t S b, 0 <= b -> (forall s, In s S -> Tq t s <= b) -> mx t S <= b.
+Proof.
+  induction S as [|a S IH]; intros b Hb H; simpl; auto.
+  apply qmax_lub; [apply H; left; auto | apply IH; auto; intros; apply H; right; auto].
+Qed.
+Lemma mx_app : forall t A B, mx t (A ++ B) == qmax (mx t A) (mx t B).
+Proof.
+  intros t A B. apply Qle_antisym.
+  - apply mx_lub; [eapply Qle_trans; [apply mx_nonneg | apply qmax_le_l]|].
+    intros s Hs; apply in_app_or in Hs; destruct Hs; [eapply Qle_trans; [apply mx_ge; eauto | apply qmax_le_l] | eapply Qle_trans; [apply mx_ge; eauto | apply qmax_le_r]].
+  - apply qmax_lub; apply mx_lub; try apply mx_nonneg; intros s Hs; apply mx_ge; apply in_or_app; auto.
+Qed.
+(* appending a point c together with points whose tents are below the tent of c *)
+Lemma mx_absorb : forall t S c X, (forall x, In x X -> Tq t x <= Tq t c) -> mx t (S ++ c :: X) == qmax (mx t S) (Tq t c).
+Proof.
+  intros t S c X HX. rewrite mx_app. apply Qle_antisym; apply qmax_lub.
+  - apply qmax_le_l.
+  - apply mx_lub; [eapply Qle_trans; [apply Tq_nonneg | apply qmax_le_r]|].
+    intros s [Hs|Hs]; [subst; apply qmax_le_r | eapply Qle_trans; [apply HX; auto | apply qmax_le_r]].
+  - apply qmax_le_l.
+  - eapply Qle_trans; [|apply qmax_le_r]. apply mx_ge; left; auto.
+Qed.
+Lemma Tq_left : forall t c, Bq c <= Dq c -> t <= fst c -> Tq t c == qmax 0 (t - Bq c).
+Proof. intros t c V H. rewrite Tq_expand. pose proof (cp_fst c) as F. assert (F' : fst c * 2 == Bq c + Dq c) by (rewrite F; field). qc. Qed.
+Lemma Tq_right : forall t c, Bq c <= Dq c -> fst c <= t -> Tq t c == qmax 0 (Dq c - t).
+Proof. intros t c V H. rewrite Tq_expand. pose proof (cp_fst c) as F. assert (F' : fst c * 2 == Bq c + Dq c) by (rewrite F; field). qc. Qed.
+
+(* ---------------- evaluation on appended breakpoint lists *)
+Lemma interp_from_app_in : forall l p m t, (exists q, In q l /\ t <= fst q) -> interp_from p (l ++ m) t = interp_from p l t.
+Proof.
+  induction l as [|a l IH]; intros p m t [q [Hq Ht]]; [inversion Hq|]. simpl.
+  destruct (Qle_bool t (fst a)) eqn:E; auto.
+  apply IH. destruct Hq as [Hq|Hq]; [subst; apply Qle_bool_iff in Ht; congruence | exists q; auto].
+Qed.
+Lemma last_cons : forall (l : list pt) a p, last (a :: l) p = last l a.
+Proof.
+  induction l as [|b l IH]; intros a p; [reflexivity|].
+  change (last (a :: b :: l) p) with (last (b :: l) p). rewrite (IH b p), (IH b a). reflexivity.
+Qed.
+Lemma interp_from_app_out : forall l p m t, (forall q, In q l -> fst q < t) -> interp_from p (l ++ m) t = interp_from (last l p) m t.
+Proof.
+  induction l as [|a l IH]; intros p m t H; [reflexivity|]. simpl app. cbn [interp_from].
+  assert (E : Qle_bool t (fst a) = false).
+  { destruct (Qle_bool t (fst a)) eqn:E; auto. apply Qle_bool_iff in E. specialize (H a (or_introl eq_refl)). lra. }
+  rewrite E. rewrite IH by (intros; apply H; right; auto). rewrite last_cons. reflexivity.
+Qed.
+
+(* ---------------- weakly increasing breakpoint lists (equal neighbours allowed, removed later by std::unique) *)
+Definition wle (p q : pt) : Prop := fst p < fst q \/ (fst p == fst q /\ snd p == snd q).
+Fixpoint wsorted_from (p : pt) (l : list pt) : Prop :=
+  match l with [] => True | q :: tl => wle p q /\ wsorted_from q tl end.
+Lemma wsorted_from_app : forall l p m, wsorted_from p l -> wsorted_from (last l p) m -> wsorted_from p (l ++ m).
+Proof.
+  induction l as [|a l IH]; intros p m H1 H2; [exact H2|].
+  simpl in H1. destruct H1 as [H1 H1']. simpl app. split; auto. apply IH; auto. rewrite last_cons in H2. exact H2.
+Qed.
+
+Definition p0 : pt := (- INF, 0).
+
+Section Geo.
+  Variable cps : list pt.
+  Hypothesis Heps : epssep cps.
+
+  Definition GeoInv (TL rest S : list pt) (L : pt) : Prop :=
+    S ++ rest = cps /\ In L S /\ lexsorted rest /\ (forall r, In r rest -> lexle L r) /\ validl rest /\ Bq L <= Dq L /\
+    (exists pre, TL = pre ++ [L]) /\ (forall q, In q TL -> fst q <= fst L) /\ wsorted_from p0 TL /\
+    (forall t, - INF < t -> t <= fst L -> interp_from p0 TL t == mx t S) /\
+    (forall t, fst L <= t -> mx t S == Tq t L).
+
+  Lemma mid_le : forall a b, Bq a <= Bq b -> Dq a <= Dq b -> fst a <= fst b.
+  Proof.
+    intros a b H1 H2. pose proof (cp_fst a) as Fa. pose proof (cp_fst b) as Fb.
+    assert (fst a * 2 == Bq a + Dq a) by (rewrite Fa; field). assert (fst b * 2 == Bq b + Dq b) by (rewrite Fb; field). lra.
+  Qed.
+  Lemma mid_lt : forall a b, Bq a <= Bq b -> Dq a < Dq b -> fst a < fst b.
+  Proof.
+    intros a b H1 H2. pose proof (cp_fst a) as Fa. pose proof (cp_fst b) as Fb.
+    assert (fst a * 2 == Bq a + Dq a) by (rewrite Fa; field). assert (fst b * 2 == Bq b + Dq b) by (rewrite Fb; field). lra.
+  Qed.
+  Lemma last_app1 : forall (l : list pt) a d, last (l ++ [a]) d = a.
+  Proof. intros; apply last_last. Qed.
+
+  (* one more peak c after the segments m: the geometric facts are re-established *)
+  Lemma geo_step : forall pre L S c X m,
+    In L S ->
+    (forall q, In q (pre ++ [L]) -> fst q <= fst L) ->
+    (forall t, - INF < t -> t <= fst L -> interp_from p0 (pre ++ [L]) t == mx t S) ->
+    (forall t, fst L <= t -> mx t S == Tq t L) ->
+    Bq L <= Dq L -> Bq c <= Dq c -> Bq L <= Bq c -> Dq L <= Dq c ->
+    (forall x, In x X -> Bq c <= Bq x /\ Dq x <= Dq c) ->
+    (forall q, In q m -> fst q <= fst c) ->
+    (forall t, fst L < t -> t <= fst c -> interp_from L (m ++ [c]) t == qmax (Tq t L) (Tq t c)) ->
+    (forall q, In q (((pre ++ [L]) ++ m) ++ [c]) -> fst q <= fst c) /\
+    (forall t, - INF < t -> t <= fst c -> interp_from p0 (((pre ++ [L]) ++ m) ++ [c]) t == mx t (S ++ c :: X)) /\
+    (forall t, fst c <= t -> mx t (S ++ c :: X) == Tq t c).
+  Proof.
+    intros pre L S c X m HLS G3 G4 G5 VL Vc HB HD HX Hm Hseg.
+    assert (Hmid : fst L <= fst c) by (apply mid_le; auto).
+    assert (Habs : forall t, mx t (S ++ c :: X) == qmax (mx t S) (Tq t c)).
+    { intros t. apply mx_absorb. intros x Hx; destruct (HX x Hx); apply Tq_nested; auto. }
+    split; [|split].
+    - intros q Hq. apply in_app_or in Hq. destruct Hq as [Hq|[Hq|[]]]; [|subst; apply Qle_refl].
+      apply in_app_or in Hq. destruct Hq as [Hq|Hq]; [specialize (G3 q Hq); lra | apply Hm; auto].
+    - intros t Ht0 Ht. rewrite Habs. rewrite <- app_assoc.
+      destruct (Qlt_le_dec (fst L) t) as [Hlt|Hle].
+      + rewrite interp_from_app_out by (intros q Hq; specialize (G3 q Hq); lra).
+        rewrite last_app1. rewrite Hseg by auto. rewrite G5 by lra. reflexivity.
+      + rewrite interp_from_app_in by (exists L; split; [apply in_or_app; right; left; auto | auto]).
+        rewrite G4 by auto.
+        assert (Hc : Tq t c <= mx t S).
+        { eapply Qle_trans; [|apply (mx_ge t S L HLS)].
+          rewrite (Tq_left t L) by auto. eapply Qle_trans; [apply Tq_le_birth|]. qc. }
+        apply Qle_antisym; [apply qmax_le_l | apply qmax_lub; [apply Qle_refl | exact Hc]].
+    - intros t Ht. rewrite Habs. rewrite G5 by lra.
+      rewrite (Tq_right t L) by (auto; lra). rewrite (Tq_right t c) by auto. qc.
+  Qed.
+
+  Lemma geo_level_inv : forall fuel TL newc rest S L lam' newc',
+    sweep_level fuel (p0 :: TL) newc rest = Some (lam', newc') -> GeoInv TL rest S L ->
+    exists TL' L', lam' = p0 :: TL' /\ GeoInv TL' [] cps L'.
+  Proof.
+    induction fuel as [|fuel IH]; intros TL newc rest S L lam' newc' H Inv; [discriminate|].
+    cbn [sweep_level] in H. destruct rest as [|c tl].
+    - inversion H; subst. exists TL, L. split; auto. destruct Inv as [I0 I]. rewrite app_nil_r in I0. subst S. split; [apply app_nil_r | exact I].
+    - destruct Inv as [I0 [I1 [I2 [I3 [I4 [VL [[pre G1] [G3 [GW [G4 G5]]]]]]]]]]. subst TL.
+      assert (EL : lastpt (p0 :: pre ++ [L]) = L).
+      { unfold lastpt. change (p0 :: pre ++ [L]) with ((p0 :: pre) ++ [L]). apply last_last. }
+      rewrite EL in H.
+      assert (HLc : lexle L c) by (apply I3; left; auto).
+      assert (HB : Bq L <= Bq c) by (apply lexle_B; auto).
+      assert (Hc_in : In c cps) by (rewrite <- I0; apply in_or_app; right; left; auto).
+      assert (Htl_in : forall x, In x tl -> In x cps) by (intros x Hx; rewrite <- I0; apply in_or_app; right; right; auto).
+      destruct (SS_cons_inv _ _ I2) as [Stl Hctl].
+      assert (Hvc : Bq c <= Dq c) by (apply I4; left; auto).
+      assert (E1 : Qle_bool (minus_length L) (minus_length c) = true) by (apply Qle_bool_iff; exact HB).
+      rewrite E1 in H. simpl andb in H.
+      pose proof (cp_fst L) as FL. pose proof (cp_snd L) as SL. pose proof (cp_fst c) as Fc. pose proof (cp_snd c) as Sc.
+      assert (FL' : fst L * 2 == Bq L + Dq L) by (rewrite FL; field).
+      assert (Fc' : fst c * 2 == Bq c + Dq c) by (rewrite Fc; field).
+      assert (SL' : snd L * 2 == Dq L - Bq L) by (rewrite SL; field).
+      assert (Sc' : snd c * 2 == Dq c - Bq c) by (rewrite Sc; field).
+      destruct (Qlt_bool (birth_plus_deaths L) (birth_plus_deaths c)) eqn:E2.
+      + apply Qlt_bool_iff'' in E2. fold (Dq L) (Dq c) in E2.
+        destruct (Qlt_bool (minus_length c) (birth_plus_deaths L)) eqn:E3.
+        * (* crossing *)
+          apply Qlt_bool_iff'' in E3. fold (Bq c) (Dq L) in E3.
+          fold (cross_point L c) in H. set (P := cross_point L c) in *.
+          destruct (take_eq_birth P tl newc) as [new1 l1] eqn:T1. cbv beta iota zeta in H.
+          match type of H with context [take_dominated ?a ?b ?c] => destruct (take_dominated a b c) as [new3 l2] eqn:T2 end.
+          destruct (take_eq_birth_spec _ _ _ _ _ T1) as [tk1 [N1 [L1 [C1 _]]]].
+          destruct (take_dominated_spec _ _ _ _ _ T2) as [tk2 [N3 [L2 [C2 _]]]].
+          subst l1 tl.
+          pose proof (cross_point_B L c) as PB. pose proof (cross_point_D L c) as PD. fold P in PB, PD.
+          pose proof (cross_point_fst L c) as FP. pose proof (cross_point_snd L c) as SP. fold P in FP, SP.
+          assert (FP' : fst P * 2 == Bq c + Dq L) by (rewrite FP; field).
+          assert (SP' : snd P * 2 == Dq L - Bq c) by (rewrite SP; field).
+          assert (F1 : forall x, In x tk1 -> Bq c <= Bq x /\ Dq x <= Dq c).
+          { intros x Hx. specialize (C1 x Hx). unfold eqb_cond in C1. apply andb_prop in C1. destruct C1 as [A1 A2].
+            fold (Bq P) (Bq x) in A1.
+            assert (Hx_in : In x cps) by (apply Htl_in; apply in_or_app; auto).
+            assert (Hcx : lexle c x) by (apply Hctl; apply in_or_app; auto).
+            assert (Ecx : Bq c == Bq x).
+            { apply Heps; auto. rewrite <- (almost_equal_comp _ _ _ _ PB (Qeq_refl (Bq x))). exact A1. }
+            split; [lra|]. destruct Hcx as [Hlt|[_ Hd]]; [lra | auto]. }
+          assert (F2 : forall x, In x tk2 -> Bq c <= Bq x /\ Dq x <= Dq c).
+          { intros x Hx. specialize (C2 x Hx). unfold dom_cond in C2. apply andb_prop in C2. destruct C2 as [A1 A2].
+            apply Qle_bool_iff in A1. apply Qle_bool_iff in A2. fold (Bq P) (Bq x) in A1. fold (Dq P) (Dq x) in A2. split; lra. }
+          destruct (geo_step pre L S c (tk1 ++ tk2) [P] I1 G3 G4 G5 VL Hvc HB ltac:(lra)) as [G3' [G4' G5']].
+          { intros x Hx; apply in_app_or in Hx; destruct Hx; auto. }
+          { intros q [Hq|[]]; subst q. lra. }
+          { intros t Ht1 Ht2. apply geo_cross; auto. }
+          change ((p0 :: pre ++ [L]) ++ [P; c]) with (p0 :: (pre ++ [L]) ++ [P; c]) in H.
+          replace ((pre ++ [L]) ++ [P; c]) with (((pre ++ [L]) ++ [P]) ++ [c]) in H by (rewrite <- !app_assoc; reflexivity).
+          apply (IH _ _ _ (S ++ c :: tk1 ++ tk2) c _ _ H). unfold GeoInv.
+          split; [rewrite <- I0; rewrite <- !app_assoc; simpl; rewrite <- !app_assoc; reflexivity|].
+          split; [apply in_or_app; right; left; auto|].
+          destruct (SS_app_inv _ _ Stl) as [_ [Sl1 _]]. destruct (SS_app_inv _ _ Sl1) as [_ [Sl2 _]].
+          split; [exact Sl2|].
+          split; [intros r Hr; apply Hctl; apply in_or_app; right; apply in_or_app; right; auto|].
+          split; [intros x Hx; apply I4; right; apply in_or_app; right; apply in_or_app; right; auto|].
+          split; [exact Hvc|].
+          split; [eexists; reflexivity|].
+          split; [exact G3'|].
+          split.
+          { rewrite <- app_assoc. apply wsorted_from_app; auto. rewrite last_app1. simpl. split; [|split; auto].
+            - unfold wle. destruct (Qlt_le_dec (Bq L) (Bq c)); [left; lra | right; split; lra].
+            - left. lra. }
+          split; [exact G4' | exact G5'].
+        * (* disjoint or touching *)
+          assert (E3' : Dq L <= Bq c).
+          { destruct (Qlt_le_dec (Bq c) (Dq L)) as [Hlt|]; auto. apply Qlt_bool_iff'' in Hlt. unfold Bq, Dq in Hlt. congruence. }
+          fold (Dq L) (Bq c) in H.
+          destruct (geo_step pre L S c [] [(Dq L, 0); (Bq c, 0)] I1 G3 G4 G5 VL Hvc HB ltac:(lra)) as [G3' [G4' G5']].
+          { intros x []. }
+          { intros q [Hq|[Hq|[]]]; subst q; simpl; lra. }
+          { intros t Ht1 Ht2. apply geo_disjoint; auto. }
+          change ((p0 :: pre ++ [L]) ++ [(Dq L, 0); (Bq c, 0); c]) with (p0 :: (pre ++ [L]) ++ [(Dq L, 0); (Bq c, 0); c]) in H.
+          replace ((pre ++ [L]) ++ [(Dq L, 0); (Bq c, 0); c]) with (((pre ++ [L]) ++ [(Dq L, 0); (Bq c, 0)]) ++ [c]) in H by (rewrite <- !app_assoc; reflexivity).
+          apply (IH _ _ _ (S ++ [c]) c _ _ H). unfold GeoInv.
+          split; [rewrite <- I0; rewrite <- app_assoc; reflexivity|].
+          split; [apply in_or_app; right; left; auto|].
+          split; [exact Stl|].
+          split; [exact Hctl|].
+          split; [intros x Hx; apply I4; right; auto|].
+          split; [exact Hvc|].
+          split; [eexists; reflexivity|].
+          split; [exact G3'|].
+          split.
+          { rewrite <- app_assoc. apply wsorted_from_app; auto. rewrite last_app1. simpl. unfold wle; simpl. repeat split.
+            - destruct (Qlt_le_dec (fst L) (Dq L)); [left; auto | right; split; lra].
+            - destruct (Qlt_le_dec (Dq L) (Bq c)); [left; auto | right; split; [lra | reflexivity]].
+            - destruct (Qlt_le_dec (Bq c) (fst c)); [left; auto | right; split; lra]. }
+          split; [exact G4' | exact G5'].
+      + (* nested in the last peak: skipped; the breakpoints do not change *)
+        assert (E2' : Dq c <= Dq L).
+        { destruct (Qlt_le_dec (Dq L) (Dq c)) as [Hlt|]; auto. apply Qlt_bool_iff'' in Hlt. unfold Dq in Hlt. congruence. }
+        apply (IH _ _ _ (S ++ [c]) L _ _ H). unfold GeoInv.
+        assert (Habs : forall t, mx t (S ++ [c]) == mx t S).
+        { intros t. rewrite (mx_absorb t S c []) by (intros x []).
+          apply Qle_antisym; [apply qmax_lub; [apply Qle_refl|] | apply qmax_le_l].
+          eapply Qle_trans; [apply (Tq_nested t L c); auto | apply mx_ge; auto]. }
+        split; [rewrite <- I0; rewrite <- app_assoc; reflexivity|].
+        split; [apply in_or_app; left; auto|].
+        split; [exact Stl|].
+        split; [intros r Hr; apply I3; right; auto|].
+        split; [intros x Hx; apply I4; right; auto|].
+        split; [exact VL|].
+        split; [eexists; reflexivity|].
+        split; [exact G3|].
+        split; [exact GW|].
+        split; [intros t Ht0 Ht; rewrite Habs; apply G4; auto | intros t Ht; rewrite Habs; apply G5; auto].
+  Qed.
+End Geo.
+
+(* ---------------- std::unique on a weakly increasing list *)
+Definition ptQ (p q : pt) : Prop := fst p == fst q /\ snd p == snd q.
+Lemma pt_eqb_true : forall p q, pt_eqb p q = true -> ptQ p q.
+Proof. intros p q H; unfold pt_eqb in H; apply andb_prop in H; destruct H as [H1 H2]; apply Qeq_bool_iff in H1; apply Qeq_bool_iff in H2; split; auto. Qed.
+Lemma pt_eqb_false : forall p q, pt_eqb p q = false -> ~ ptQ p q.
+Proof.
+  intros p q H [H1 H2]. unfold pt_eqb in H. apply Qeq_bool_iff in H1. apply Qeq_bool_iff in H2. rewrite H1, H2 in H. discriminate.
+Qed.
+Lemma unique_cons2 : forall p q tl, unique_pts (p :: q :: tl) = if pt_eqb p q then unique_pts (q :: tl) else p :: unique_pts (q :: tl).
+Proof. reflexivity. Qed.
+
+Lemma line_val_extQ : forall p p' q q' t, ptQ p p' -> ptQ q q' -> line_val p q t == line_val p' q' t.
+Proof. intros p p' q q' t [Hx Hy] [Hx' Hy']; unfold line_val. rewrite Hx, Hx', Hy, Hy'. reflexivity. Qed.
+
+(* the result is strictly increasing, starts with a copy of the first point, and is the same PL function to the right of it *)
+Lemma unique_spec : forall l p, wsorted_from p l ->
+  exists p' r, unique_pts (p :: l) = p' :: r /\ ptQ p p' /\ xsorted (p' :: r) /\
+               forall t, fst p < t -> interp_from p' r t == interp_from p l t.
+Proof.
+  induction l as [|q tl IH]; intros p Hw.
+  - exists p, []. repeat split; try reflexivity. unfold xsorted; simpl; repeat constructor.
+  - simpl in Hw. destruct Hw as [Hpq Hw]. destruct (IH q Hw) as [q' [r [EU [Hqq' [Hs Hi]]]]].
+    rewrite unique_cons2. destruct (pt_eqb p q) eqn:E.
+    + apply pt_eqb_true in E. exists q', r. split; auto. split; [destruct E, Hqq'; split; lra|]. split; auto.
+      intros t Ht. destruct E as [Ex Ey]. cbn [interp_from].
+      assert (E' : Qle_bool t (fst q) = false).
+      { destruct (Qle_bool t (fst q)) eqn:E'; auto. apply Qle_bool_iff in E'. lra. }
+      rewrite E'. apply Hi. lra.
+    + apply pt_eqb_false in E.
+      assert (Hlt : fst p < fst q) by (destruct Hpq as [H|H]; [auto | exfalso; apply E; exact H]).
+      rewrite EU. exists p, (q' :: r). split; auto. split; [split; reflexivity|]. destruct Hqq' as [Qx Qy].
+      split.
+      { unfold xsorted in *. simpl in *. constructor; auto. inversion Hs as [|? ? _ Hall]; subst.
+        constructor; [lra|]. eapply Forall_impl; [|exact Hall]. intros a Ha; simpl in Ha. lra. }
+      intros t Ht. cbn [interp_from]. rewrite <- Qx.
+      destruct (Qle_bool t (fst q)) eqn:E'.
+      * apply line_val_extQ; [split; reflexivity | split; [symmetry; auto | symmetry; auto]].
+      * apply Qle_bool_false in E'. apply Hi. exact E'.
+Qed.
+Lemma unique_snoc : forall l y z, pt_eqb y z = false -> unique_pts (l ++ [y; z]) = unique_pts (l ++ [y]) ++ [z].
+Proof.
+  induction l as [|a l IH]; intros y z H.
+  - simpl. rewrite H. reflexivity.
+  - destruct l as [|b l'].
+    + simpl app. rewrite !unique_cons2. destruct (pt_eqb a y); simpl; rewrite H; reflexivity.
+    + change ((a :: b :: l') ++ [y; z]) with (a :: b :: (l' ++ [y; z])). change ((a :: b :: l') ++ [y]) with (a :: b :: (l' ++ [y])).
+      rewrite !unique_cons2. change (b :: l' ++ [y; z]) with ((b :: l') ++ [y; z]). change (b :: l' ++ [y]) with ((b :: l') ++ [y]).
+      rewrite (IH y z H). destruct (pt_eqb a b); reflexivity.
+Qed.
+Lemma unique_last : forall l y d, last (unique_pts (l ++ [y])) d = y.
+Proof.
+  induction l as [|a l IH]; intros y d; [reflexivity|].
+  destruct l as [|b l'].
+  - simpl app. rewrite unique_cons2. destruct (pt_eqb a y); reflexivity.
+  - change ((a :: b :: l') ++ [y]) with (a :: b :: (l' ++ [y])). rewrite unique_cons2.
+    change (b :: l' ++ [y]) with ((b :: l') ++ [y]). destruct (pt_eqb a b); [apply IH|].
+    rewrite last_cons. apply IH.
+Qed.
+
+Lemma sweep_level_prefix : forall fuel lam newc rest lam' newc',
+  sweep_level fuel lam newc rest = Some (lam', newc') -> exists ext, lam' = lam ++ ext.
+Proof.
+  induction fuel as [|fuel IH]; intros lam newc rest lam' newc' H; [discriminate|].
+  cbn [sweep_level] in H. destruct rest as [|c tl].
+  - inversion H; subst. exists []. rewrite app_nil_r; auto.
+  - destruct (Qle_bool (minus_length (lastpt lam)) (minus_length c) && Qlt_bool (birth_plus_deaths (lastpt lam)) (birth_plus_deaths c)).
+    + destruct (Qlt_bool (minus_length c) (birth_plus_deaths (lastpt lam))).
+      * match type of H with context [take_eq_birth ?a ?b ?c] => destruct (take_eq_birth a b c) as [new1 l1] end.
+        cbv beta iota zeta in H.
+        match type of H with context [take_dominated ?a ?b ?c] => destruct (take_dominated a b c) as [new3 l2] end.
+        destruct (IH _ _ _ _ _ H) as [ext E]. eexists. rewrite E, <- app_assoc. reflexivity.
+      * destruct (IH _ _ _ _ _ H) as [ext E]. eexists. rewrite E, <- app_assoc. reflexivity.
+    + apply (IH _ _ _ _ _ H).
+Qed.
+Lemma last_nth : forall (l : list pt) d, last l d = nth (length l - 1) l d.
+Proof.
+  induction l as [|a l IH]; intros d; [reflexivity|]. destruct l as [|b l']; [reflexivity|].
+  change (last (a :: b :: l') d) with (last (b :: l') d). rewrite IH. simpl. rewrite Nat.sub_0_r. reflexivity.
+Qed.
+Lemma unique_nonempty : forall m, m <> [] -> unique_pts m <> [].
+Proof.
+  induction m as [|p m IH]; intros H; [congruence|]. destruct m as [|q m']; [discriminate|].
+  rewrite unique_cons2. destruct (pt_eqb p q); [apply IH; discriminate | discriminate].
+Qed.
+
+Definition boundedl (l : list pt) : Prop := forall c, In c l -> - INF < Bq c /\ Dq c < INF.
+
+(* one level: the breakpoint list that the sweep stores is strictly increasing, vanishes at its two outer points on either
+   side, starts at -INF, ends at INF, and is the upper envelope of the tents of the swept characteristic points *)
+Theorem one_level_envelope : forall cps F newc, one_level cps = Some (F, newc) ->
+  lexsorted cps -> validl cps -> epssep cps -> boundedl cps ->
+  xsorted F /\ (3 <= length F)%nat /\
+  snd (nthp F 0) == 0 /\ snd (nthp F 1) == 0 /\ snd (nthp F (length F - 2)) == 0 /\ snd (nthp F (length F - 1)) == 0 /\
+  fst (nthp F 0) == - INF /\ fst (nthp F (length F - 1)) == INF /\
+  forall t, - INF < t -> interp F t == mx t cps.
+Proof.
+  intros cps F newc H Hs Hv He Hb. unfold one_level in H. destruct cps as [|c0 tl]; [discriminate|].
+  destruct (sweep_level (S (length (c0 :: tl))) [(- INF, 0); (minus_length c0, 0); c0] [] tl) as [[lam newc']|] eqn:E; [|discriminate].
+  injection H as EF EN. subst newc'.
+  destruct (SS_cons_inv _ _ Hs) as [Stl Hc0].
+  destruct (Hb c0 (or_introl eq_refl)) as [Hb0 Hd0].
+  assert (Hv0 : Bq c0 <= Dq c0) by (apply Hv; left; auto).
+  pose proof (cp_fst c0) as Fc. pose proof (cp_snd c0) as Sc.
+  assert (Fc' : fst c0 * 2 == Bq c0 + Dq c0) by (rewrite Fc; field).
+  assert (Sc' : snd c0 * 2 == Dq c0 - Bq c0) by (rewrite Sc; field).
+  assert (Inv0 : GeoInv (c0 :: tl) [(Bq c0, 0); c0] tl [c0] c0).
+  { unfold GeoInv. split; [reflexivity|]. split; [left; auto|]. split; [exact Stl|]. split; [exact Hc0|].
+    split; [intros x Hx; apply Hv; right; auto|]. split; [exact Hv0|]. split; [exists [(Bq c0, 0)]; reflexivity|].
+    split; [intros q [Hq|[Hq|[]]]; subst q; simpl; lra|].
+    split.
+    { simpl. unfold wle; simpl. repeat split; [left; exact Hb0|].
+      destruct (Qlt_le_dec (Bq c0) (fst c0)); [left; auto | right; split; lra]. }
+    assert (Hm : forall t, mx t [c0] == Tq t c0).
+    { intros t. simpl. apply Qle_antisym; [apply qmax_lub; [apply Qle_refl | apply Tq_nonneg] | apply qmax_le_l]. }
+    split; [intros t Ht0 Ht; rewrite Hm; apply geo_init; auto | intros t Ht; apply Hm]. }
+  change [(- INF, 0); (minus_length c0, 0); c0] with (p0 :: [(Bq c0, 0); c0]) in E.
+  destruct (sweep_level_prefix _ _ _ _ _ _ E) as [ext Eext].
+  destruct (geo_level_inv (c0 :: tl) He _ _ _ _ _ _ _ _ E Inv0) as [TL [L [Elam [_ [IL [_ [_ [_ [VL [[pre G1] [G3 [GW [G4 G5]]]]]]]]]]]]].
+  rewrite Elam in Eext. assert (ETL : TL = [(Bq c0, 0); c0] ++ ext) by (inversion Eext; auto). clear Eext.
+  subst lam.
+  assert (EL : lastpt (p0 :: TL) = L).
+  { rewrite G1. unfold lastpt. change (p0 :: pre ++ [L]) with ((p0 :: pre) ++ [L]). apply last_last. }
+  rewrite EL in EF. fold (Dq L) in EF.
+  destruct (Hb L IL) as [HbL HdL].
+  pose proof (cp_fst L) as FL. pose proof (cp_snd L) as SL.
+  assert (FL' : fst L * 2 == Bq L + Dq L) by (rewrite FL; field).
+  assert (SL' : snd L * 2 == Dq L - Bq L) by (rewrite SL; field).
+  set (y := (Dq L, 0)) in *. set (z := (INF, 0)) in *.
+  assert (Hyz : pt_eqb y z = false).
+  { unfold pt_eqb, y, z; simpl. destruct (Qeq_bool (Dq L) INF) eqn:Eq; auto. apply Qeq_bool_iff in Eq. lra. }
+  change ((p0 :: TL) ++ [y; z]) with (p0 :: (TL ++ [y; z])) in EF.
+  assert (GW' : wsorted_from p0 (TL ++ [y; z])).
+  { apply wsorted_from_app; auto. rewrite G1, last_app1. simpl. unfold wle, y, z; simpl. repeat split.
+    - destruct (Qlt_le_dec (fst L) (Dq L)); [left; auto | right; split; lra].
+    - left; exact HdL. }
+  destruct (unique_spec _ _ GW') as [p' [r [EU [Hp' [Hxs Hint]]]]].
+  assert (EW : unique_pts (p0 :: TL ++ [y; z]) = unique_pts ((p0 :: TL) ++ [y]) ++ [z]).
+  { change (p0 :: TL ++ [y; z]) with ((p0 :: TL) ++ [y; z]). apply unique_snoc; auto. }
+  pose proof EF as EF0. rewrite EF in EU, EW. clear EF.
+  (* the function *)
+  assert (Hfun : forall t, - INF < t -> interp F t == mx t (c0 :: tl)).
+  { intros t Ht. rewrite EU. destruct Hp' as [Px Py]. simpl in Px. cbn [interp].
+    assert (E' : Qle_bool t (fst p') = false).
+    { destruct (Qle_bool t (fst p')) eqn:E'; auto. apply Qle_bool_iff in E'. lra. }
+    rewrite E'. rewrite Hint by (simpl; exact Ht).
+    destruct (Qlt_le_dec (fst L) t) as [Hlt|Hle].
+    - rewrite interp_from_app_out by (intros q Hq; specialize (G3 q Hq); lra).
+      rewrite G1, last_app1. unfold y, z. rewrite geo_final by auto. symmetry. apply G5. lra.
+    - rewrite interp_from_app_in by (exists L; split; [rewrite G1; apply in_or_app; right; left; auto | auto]).
+      apply G4; auto. }
+  (* the two ends *)
+  set (U := unique_pts ((p0 :: TL) ++ [y])) in *.
+  assert (HlastU : forall d, last U d = y) by (intros d; apply unique_last).
+  assert (HU2 : (2 <= length U)%nat).
+  { destruct U as [|u0 U'] eqn:EUU; [exfalso; apply (unique_nonempty ((p0 :: TL) ++ [y])); [discriminate | exact EUU]|].
+    destruct U' as [|u1 U'']; [|simpl; lia]. exfalso.
+    specialize (HlastU pt0). simpl in HlastU. rewrite EU in EW. simpl in EW. inversion EW; subst p'.
+    destruct Hp' as [Px _]. rewrite HlastU in Px. simpl in Px. lra. }
+  assert (Hlen : length F = S (length U)) by (rewrite EW, app_length; simpl; lia).
+  split; [rewrite EU; exact Hxs|]. split; [lia|].
+  assert (F0 : nthp F 0 = p') by (rewrite EU; reflexivity).
+  assert (Flast : nthp F (length F - 1) = z).
+  { unfold nthp. rewrite Hlen, EW. replace (S (length U) - 1)%nat with (length U) by lia. rewrite app_nth2 by lia. rewrite Nat.sub_diag. reflexivity. }
+  assert (Flast2 : nthp F (length F - 2) = y).
+  { unfold nthp. rewrite Hlen, EW. replace (S (length U) - 2)%nat with (length U - 1)%nat by lia. rewrite app_nth1 by lia.
+    rewrite <- last_nth. apply HlastU. }
+  assert (F1 : snd (nthp F 1) == 0).
+  { rewrite <- EF0. rewrite ETL. simpl app. rewrite unique_cons2.
+    assert (E01 : pt_eqb p0 (Bq c0, 0) = false).
+    { unfold pt_eqb, p0; simpl. destruct (Qeq_bool (- INF) (Bq c0)) eqn:Eq; auto. apply Qeq_bool_iff in Eq. lra. }
+    rewrite E01. rewrite ETL in GW'. simpl in GW'. destruct GW' as [_ GW''].
+    destruct (unique_spec (c0 :: ext ++ [y; z]) (Bq c0, 0) GW'') as [q' [r' [EU' [[_ Qy] _]]]]. rewrite EU'. unfold nthp; simpl. rewrite <- Qy. reflexivity. }
+  destruct Hp' as [Px Py]. rewrite F0, Flast, Flast2. simpl in Px, Py.
+  repeat split; try (unfold y, z; simpl; lra); auto. 
+Qed.
+
+(* ---------------- bounds are inherited by the list handed to the next level *)
+Lemma sweep_level_bounded : forall fuel lam newc rest lam' newc',
+  sweep_level fuel lam newc rest = Some (lam', newc') ->
+  Dq (lastpt lam) < INF -> boundedl rest -> boundedl newc -> boundedl newc'.
+Proof.
+  induction fuel as [|fuel IH]; intros lam newc rest lam' newc' H HL Hr Hn; [discriminate|].
+  cbn [sweep_level] in H. destruct rest as [|c tl].
+  - inversion H; subst; auto.
+  - assert (Hc : - INF < Bq c /\ Dq c < INF) by (apply Hr; left; auto).
+    assert (Htl : boundedl tl) by (intros x Hx; apply Hr; right; auto).
+    destruct (Qle_bool (minus_length (lastpt lam)) (minus_length c) && Qlt_bool (birth_plus_deaths (lastpt lam)) (birth_plus_deaths c)).
+    + destruct (Qlt_bool (minus_length c) (birth_plus_deaths (lastpt lam))).
+      * fold (cross_point (lastpt lam) c) in H. set (P := cross_point (lastpt lam) c) in *.
+        destruct (take_eq_birth P tl newc) as [new1 l1] eqn:T1. cbv beta iota zeta in H.
+        match type of H with context [take_dominated ?a ?b ?c] => destruct (take_dominated a b c) as [new3 l2] eqn:T2 end.
+        destruct (take_eq_birth_spec _ _ _ _ _ T1) as [tk1 [N1 [L1 _]]].
+        destruct (take_dominated_spec _ _ _ _ _ T2) as [tk2 [N3 [L2 _]]]. subst.
+        apply (IH _ _ _ _ _ H).
+        -- rewrite lastpt_app2. apply Hc.
+        -- intros x Hx. apply Htl. apply in_or_app; right; apply in_or_app; right; auto.
+        -- intros x Hx. apply in_app_or in Hx. destruct Hx as [Hx|Hx]; [|apply Htl; apply in_or_app; right; apply in_or_app; left; auto].
+           apply in_app_or in Hx. destruct Hx as [Hx|[Hx|[]]].
+           ++ apply in_app_or in Hx. destruct Hx as [Hx|Hx]; [apply Hn; auto | apply Htl; apply in_or_app; left; auto].
+           ++ subst x. pose proof (cross_point_B (lastpt lam) c) as PB. pose proof (cross_point_D (lastpt lam) c) as PD. fold P in PB, PD. destruct Hc. split; lra.
+      * apply (IH _ _ _ _ _ H); auto. rewrite lastpt_app3. apply Hc.
+    + apply (IH _ _ _ _ _ H); auto. intros x Hx. apply in_app_or in Hx. destruct Hx as [Hx|[Hx|[]]]; [apply Hn; auto | subst; auto].
+Qed.
+Lemma one_level_bounded : forall cps F newc, one_level cps = Some (F, newc) -> boundedl cps -> boundedl newc.
+Proof.
+  intros cps F newc H Hb. unfold one_level in H. destruct cps as [|c0 tl]; [discriminate|].
+  destruct (sweep_level (S (length (c0 :: tl))) [(- INF, 0); (minus_length c0, 0); c0] [] tl) as [[lam newc']|] eqn:E; [|discriminate].
+  injection H as _ EN. subst newc'.
+  apply (sweep_level_bounded _ _ _ _ _ _ E).
+  - change (lastpt [(- INF, 0); (minus_length c0, 0); c0]) with c0. apply Hb; left; auto.
+  - intros x Hx; apply Hb; right; auto.
+  - intros x [].
+Qed.
+Lemma residual_bounded : forall j cps R, residual j cps = Some R -> boundedl cps -> boundedl R.
+Proof.
+  induction j as [|j IH]; intros cps R H Hb; simpl in H; [inversion H; subst; auto|].
+  destruct (one_level cps) as [[F newc]|] eqn:E; [|discriminate].
+  apply (IH _ _ H). eapply one_level_bounded; eauto.
+Qed.
+
+Lemma mx_is_top : forall t S, mx t S == nth 0 (sort_desc (Vq t S)) 0.
+Proof.
+  intros t S. pose proof (sort_desc_perm (Vq t S)) as HP. pose proof (sort_desc_sorted (Vq t S)) as HS.
+  destruct (sort_desc (Vq t S)) as [|a l] eqn:E.
+  - apply Permutation_nil in HP. destruct S; [reflexivity | discriminate].
+  - simpl. apply Qle_antisym.
+    + assert (Ha : In a (Vq t S)) by (eapply Permutation_in; [exact HP | left; auto]).
+      destruct (Vq_in _ _ _ Ha) as [c [Hc Ea]]. 
+      apply mx_lub; [subst a; apply Tq_nonneg|].
+      intros s Hs. assert (Hin : In (Tq t s) (a :: l)).
+      { eapply Permutation_in; [apply Permutation_sym; exact HP|]. unfold Vq; apply in_map; auto. }
+      destruct Hin as [Hin|Hin]; [rewrite Hin; apply Qle_refl|].
+      inversion HS as [|? ? _ Hall]; subst. rewrite Forall_forall in Hall. apply Hall; auto.
+    + assert (Ha : In a (Vq t S)) by (eapply Permutation_in; [exact HP | left; auto]).
+      destruct (Vq_in _ _ _ Ha) as [c [Hc Ea]]. subst a. apply mx_ge; auto.
+Qed.
+
+Lemma value_at_nth : forall land k x, (k < length land)%nat -> value_at land k x = value_at [nth k land []] 0 x.
+Proof.
+  intros land k x H. unfold value_at. simpl length. 
+  assert (E : Nat.leb (length land) k = false) by (apply Nat.leb_gt; auto). rewrite E. reflexivity.
+Qed.
+
+Lemma sweep_all_levels : forall fuel d cps acc land, sweep_all fuel 0 d cps acc = Some land ->
+  exists n, length land = (length acc + n)%nat /\ (forall i, (i < length acc)%nat -> nth i land [] = nth i acc []) /\
+    residual n cps = Some [] /\
+    forall j, (j < n)%nat -> exists R F newc, residual j cps = Some R /\ one_level R = Some (F, newc) /\ nth (length acc + j) land [] = F.
+Proof.
+  induction fuel as [|fuel IH]; intros d cps acc land H; [discriminate|].
+  cbn [sweep_all] in H. destruct cps as [|c0 tl].
+  - inversion H; subst. exists O. rewrite Nat.add_0_r. repeat split; auto. intros j Hj; lia.
+  - destruct (one_level (c0 :: tl)) as [[lam newc]|] eqn:E; [|discriminate].
+    change (Nat.eqb 0 (S d)) with false in H. cbv iota in H.
+    destruct (IH _ _ _ _ H) as [n [Hlen [Hpre [Hres Hlev]]]]. rewrite app_length in Hlen, Hpre, Hlev. simpl in Hlen, Hpre, Hlev.
+    exists (S n). split; [lia|]. split.
+    { intros i Hi. rewrite Hpre by lia. apply app_nth1; auto. }
+    split; [cbn [residual]; rewrite E; exact Hres|].
+    intros j Hj. destruct j as [|j].
+    + exists (c0 :: tl), lam, newc. repeat split; auto. rewrite Nat.add_0_r. rewrite Hpre by lia.
+      rewrite app_nth2 by lia. rewrite Nat.sub_diag. reflexivity.
+    + destruct (Hlev j ltac:(lia)) as [R [F [nc [H1 [H2 H3]]]]]. exists R, F, nc. repeat split; auto.
+      * cbn [residual]. rewrite E. exact H1.
+      * rewrite <- H3. f_equal. lia.
+Qed.
+
+Definition bounded_diagram (D : list (Q * Q)) : Prop := forall bd, In bd D -> - INF < fst bd /\ snd bd < INF.
+
+(* the construction of construct_persistence_landscape_from_barcode followed by compute_value_at_a_given_point computes
+   lambda_k(t) for every diagram, every level and every abscissa between the sentinels *)
+Theorem sweep_eq_lambda : forall D land, valid_diagram D -> eps_separated D -> bounded_diagram D ->
+  construct D 0 = Some land ->
+  forall k t, - INF < t -> t < INF -> exists v, value_at land k t = Some v /\ v == lambda D k t.
+Proof.
+  intros D land Hv He Hb Hc k t Ht0 Ht1.
+  change (construct D 0) with (sweep_all (S (length D)) 0 0 (first_cps D) []) in Hc.
+  destruct (sweep_all_levels _ _ _ _ _ Hc) as [n [Hlen [_ [Hres Hlev]]]]. simpl in Hlen, Hlev.
+  assert (Hs : lexsorted (first_cps D)) by (apply lexsorted_map_to_cp; apply sort_bars_sorted).
+  assert (Hin : forall c, In c (first_cps D) -> exists b, In b D /\ c = to_cp b).
+  { intros c Hc'. unfold first_cps in Hc'. apply in_map_iff in Hc'. destruct Hc' as [b [Hb' Hin]]. exists b; split; auto.
+    eapply Permutation_in; [apply sort_bars_perm | exact Hin]. }
+  assert (Hv' : validl (first_cps D)).
+  { intros c Hc'. destruct (Hin c Hc') as [b [Hb' Ec]]; subst. rewrite to_cp_B, to_cp_D. apply Hv; auto. }
+  assert (He' : epssep (first_cps D)).
+  { intros a b Ha Hb' Hab. destruct (Hin a Ha) as [a' [Ha' Ea]]. destruct (Hin b Hb') as [b' [Hb'' Eb]]. subst.
+    rewrite !to_cp_B. apply He; auto. rewrite <- (almost_equal_comp _ _ _ _ (to_cp_B a') (to_cp_B b')). exact Hab. }
+  assert (Hb' : boundedl (first_cps D)).
+  { intros c Hc'. destruct (Hin c Hc') as [b [Hb'' Ec]]; subst. rewrite to_cp_B, to_cp_D. apply Hb; auto. }
+  destruct (Nat.lt_ge_cases k n) as [Hk|Hk].
+  - destruct (Hlev k Hk) as [R [F [newc [HR [HF HnF]]]]].
+    destruct (residual_values _ _ _ HR Hs Hv' He') as [[HsR [HvR HeR]] _].
+    pose proof (residual_bounded _ _ _ HR Hb') as HbR.
+    destruct (one_level_envelope _ _ _ HF HsR HvR HeR HbR) as [Hxs [Hl3 [Y0 [Y1 [Y2 [Y3 [X0 [X1 Hfun]]]]]]]].
+    rewrite value_at_nth by lia. rewrite HnF.
+    destruct (value_at_is_interp F t Hxs Hl3 Y0 Y1 Y2 Y3 ltac:(lra) ltac:(lra)) as [v [Hv1 Hv2]].
+    exists v. split; auto. rewrite Hv2, Hfun by auto. rewrite mx_is_top.
+    rewrite <- (sweep_residual_lambda D k R Hv He HR t 0). rewrite Nat.add_0_r. reflexivity.
+  - exists 0. split.
+    + unfold value_at. assert (E : Nat.leb (length land) k = true) by (apply Nat.leb_le; lia). rewrite E. reflexivity.
+    + replace k with (n + (k - n))%nat by lia. rewrite (sweep_residual_lambda D n [] Hv He Hres t (k - n)).
+      simpl. destruct (k - n)%nat; reflexivity.
+Qed.
